@@ -149,9 +149,17 @@ def _worker_init(init_fn):
 def _worker_call(args):
     fn, chunk = args
     res = Result()
+    log = os.environ.get('VERIF_CASE_LOG')      # diagnostics only: wall time of every case
     for item in chunk:
+        t0 = time.time()
+        if log:
+            with open(log, 'a') as f:
+                f.write(f'start {os.getpid()} {item!r}\n')
         try:
             fn(item, res)
+            if log:
+                with open(log, 'a') as f:
+                    f.write(f'done {os.getpid()} {time.time() - t0:.1f}s {item!r}\n')
         except Broken as e:
             raise Broken(f'{e} [case {item!r}]')
         except BaseException as e:   # a crash of the harness on one case is a broken harness
